@@ -735,7 +735,7 @@ def block(ctx: Ctx, stmts, ret_wrap, ind="  ") -> str:
                 if ty:
                     ctx.types[tgt.id] = ty
             vt = infer(ctx, s.value) if isinstance(s.value, ast.Name) else None
-            if vt and ty and vt == f"Option {ty}":
+            if vt and ty and vt in (f"Option {ty}", f"Option ({ty})"):
                 # `x = opt` under an `opt is not None` guard
                 val = f"({li(s.value.id)}.getD {li(tgt.id)})"
             else:
